@@ -40,6 +40,38 @@ func runC04(t *testing.T) {
 	opts := genOpts{maxTasks: kit.Scale(10, 16), waits: true, atTimes: true, failures: true}
 	n := kit.Scale(45, 260)
 	only := kit.OnlyCase()
+	// free-running cases with handlers that lock/modify/unlock the state
+	// mid-work over a slow backend: checkpoints must be written in lock order,
+	// otherwise the state file can go back in time and a restart redoes work
+	nFree := kit.Scale(40, 200)
+	for i := 0; i < nFree; i++ {
+		if only >= 0 {
+			break
+		}
+		rnd := kit.CaseRand("c04-free", i)
+		cs := genCase(rnd, 100000+i, genOpts{maxTasks: 12, waits: false, atTimes: false, failures: true})
+		cs.Mode = "free"
+		atomic.StoreInt64(&vclockNanos, epoch.UnixNano())
+		h := newHarness(cs)
+		h.midWork, h.slowCkpt = true, true
+		h.build()
+		out := h.runFree(kit.CaseRand("c04-free-sched", i))
+		_ = out
+		c.Eval()
+		c.Count("free_running_cases_with_mid_work_unlocks", 1)
+		c.Count("checkpoints_with_version_stamp", h.ckptStamped)
+		if h.watchdog {
+			c.Inconclusive(fmt.Sprintf("free case %d: watchdog", i))
+			continue
+		}
+		if h.ckptOutOfOrder > 0 {
+			c.Violation("C04:checkpoint-written-out-of-order", map[string]interface{}{"case_index": cs.Index, "case": cs,
+				"count": h.ckptOutOfOrder, "first": h.ckptWitness})
+		}
+		if h.ckptStamped > 3 {
+			c.Nontrivial(cs.signature("free-midwork"))
+		}
+	}
 	for i := 0; i < n; i++ {
 		if only >= 0 && i != only {
 			continue
